@@ -76,7 +76,7 @@ def check(ctx):
         except (InterpError, ModelRaised) as e:      # an exception of the interpreted code that no scenario expected is confined to this section
             raise AnalysisError(f"C28/flatten: _flattenElement uses a construct the evaluator cannot interpret: {e}")
     with ctx.section("buffer"):
-        _buffer(ctx)
+        structural(ctx, "recursion/buffer-order", "flatten/parses-back (bounded)", _buffer, ctx)
     with ctx.section("s-whole-data"):
         structural(ctx, "sink/whole-data-escaper", "flatten/terminators-across-chunk-boundaries (bounded)", _s_whole_data, ctx)
     with ctx.section("flatten-straddle"):
@@ -523,34 +523,96 @@ def _fe_escapers(ctx):
     ctx.check(not bad_a, "escaper/all-bytes", Q + "writeWithAttributeEscaping._write", f"attribute text {bad_a[0][0]!r} is written as {bad_a[0][1]!r}" if bad_a else "", detail=dom)
 
 
-def _buffer(ctx):
-    """everything written reaches the upstream writer exactly once and in the order written"""
+def _buffer_roles(ctx):
+    """Find the buffering writer BY ROLE: it is the callable _flattenTree hands to the root _flattenElement as `write`.  Two shapes are read:
+      closure : a nested function appending to a list of _flattenTree, a nested flush function delivering b''.join(list) to the upstream writer (a parameter of _flattenTree);
+      object  : the bound method <obj>.<m> of an instance of a module class built from the upstream writer; the buffer and the upstream writer are attributes of that instance.
+    -> dict(fw, ff: function nodes; buf, up, flush_in_w, flush_in_t: the normalised texts of the buffer, the upstream writer and the flush call as seen in fw/ff resp. in
+    _flattenTree; names for the constructs)"""
     ft = ctx.func(FL, "_flattenTree")
     up = param_names(ft)[2]
-    bw = ctx.func(FL, "_flattenTree.bufferedWrite")
-    fb = ctx.func(FL, "_flattenTree.flushBuffer")
-    q = Q + "_flattenTree."
+    roots = [c for c in walk_local(ft) if isinstance(c, ast.Call) and call_name(c) == "_flattenElement" and len(c.args) >= 3]
+    if len(roots) != 1:
+        raise Abstain(f"{len(roots)} root _flattenElement(...) calls in _flattenTree")
+    w = roots[0].args[2]
+    nested = {n.name: n for n in ast.walk(ft) if isinstance(n, ast.FunctionDef) and n is not ft}
+    if isinstance(w, ast.Name) and w.id in nested:
+        fw = nested[w.id]
+        called = [c.func.id for c in walk_local(fw) if isinstance(c, ast.Call) and isinstance(c.func, ast.Name) and c.func.id in nested and c.func.id != fw.name]
+        if len(set(called)) != 1:
+            raise Abstain(f"the buffering writer {fw.name} calls {sorted(set(called))} (one flush function expected)")
+        ff = nested[called[0]]
+        apps = [c for c in walk_local(fw) if isinstance(c, ast.Call) and call_attr(c) == "append" and isinstance(c.func.value, ast.Name)]
+        if not apps:
+            return dict(ft=ft, fw=fw, ff=ff, buf=None, up=up, flush_in_w=ff.name, flush_in_t=ff.name, qw=Q + "_flattenTree." + fw.name, qf=Q + "_flattenTree." + ff.name)
+        return dict(ft=ft, fw=fw, ff=ff, buf=apps[0].func.value.id, up=up, flush_in_w=ff.name, flush_in_t=ff.name, qw=Q + "_flattenTree." + fw.name, qf=Q + "_flattenTree." + ff.name)
+    if isinstance(w, ast.Attribute) and isinstance(w.value, ast.Name):
+        obj = w.value.id
+        ctors = [st.value for st in walk_local(ft) if isinstance(st, (ast.Assign, ast.AnnAssign)) and st.value is not None and
+                 any(isinstance(t, ast.Name) and t.id == obj for t in (st.targets if isinstance(st, ast.Assign) else [st.target])) and isinstance(st.value, ast.Call)]
+        if len(ctors) != 1 or not isinstance(ctors[0].func, ast.Name):
+            raise Abstain(f"`{obj}` is not built by one constructor call in _flattenTree")
+        cname = ctors[0].func.id
+        cls = ctx.mod(FL).find(cname)
+        if not isinstance(cls, ast.ClassDef):
+            raise Abstain(f"`{cname}` is not a class of the module")
+        ctx.cls(FL, cname)
+        ms = {n.name: n for n in cls.body if isinstance(n, ast.FunctionDef)}
+        if w.attr not in ms or "__init__" not in ms:
+            raise Abstain(f"{cname}.{w.attr} / {cname}.__init__ not found")
+        fw = ms[w.attr]
+        # the attribute holding the upstream writer: assigned in __init__ from the parameter that receives _flattenTree's writer
+        ip = param_names(ms["__init__"])[1:]
+        kw = {k.arg: k.value for k in ctors[0].keywords}
+        bound = dict(zip(ip, ctors[0].args))
+        bound.update({k: v for k, v in kw.items() if k in ip})
+        wparam = [p_ for p_, v in bound.items() if isinstance(v, ast.Name) and v.id == up]
+        if len(wparam) != 1:
+            raise Abstain(f"the upstream writer is not handed to {cname}(...) as one plain argument")
+        upattr = [src(t) for st in walk_local(ms["__init__"]) if isinstance(st, (ast.Assign, ast.AnnAssign)) and st.value is not None and src(st.value) == wparam[0]
+                  for t in (st.targets if isinstance(st, ast.Assign) else [st.target])]
+        if len(upattr) != 1:
+            raise Abstain(f"{cname}.__init__ does not keep the upstream writer in one attribute")
+        called = [c.func.attr for c in walk_local(fw) if isinstance(c, ast.Call) and isinstance(c.func, ast.Attribute) and src(c.func.value) == "self" and c.func.attr in ms and c.func.attr != fw.name]
+        if len(set(called)) != 1:
+            raise Abstain(f"{cname}.{fw.name} calls {sorted(set(called))} (one flush method expected)")
+        ff = ms[called[0]]
+        apps = [c for c in walk_local(fw) if isinstance(c, ast.Call) and call_attr(c) == "append" and isinstance(c.func.value, ast.Attribute) and src(c.func.value.value) == "self"]
+        return dict(ft=ft, fw=fw, ff=ff, buf=src(apps[0].func.value) if apps else None, up=upattr[0], flush_in_w="self." + ff.name, flush_in_t=f"{obj}.{ff.name}",
+                    qw=Q + cname + "." + fw.name, qf=Q + cname + "." + ff.name, up_in_t=up)
+    raise Abstain(f"the writer handed to the root _flattenElement is `{src(w)}`")
+
+
+def _buffer(ctx):
+    """everything written reaches the upstream writer exactly once and in the order written"""
+    r = _buffer_roles(ctx)
+    ft, bw, fb, up, bufname = r["ft"], r["fw"], r["ff"], r["up"], r["buf"]
+    qw, qf, qt = r["qw"], r["qf"], Q + "_flattenTree"
     g = ctx.cfg(bw)
-    bs = param_names(bw)[0]
-    app = call_sites(g, lambda c: call_attr(c) == "append" and [src(a) for a in c.args] == [bs])
-    direct = call_sites(g, lambda c: isinstance(c.func, ast.Name) and c.func.id == up)
-    flushes = [n for n, c in call_sites(g, lambda c: isinstance(c.func, ast.Name) and c.func.id == fb.name)]
-    ctx.check(len(app) >= 1, "recursion/buffer-order", q + "bufferedWrite", "output is not appended to the buffer")
+    ps = [p_ for p_ in param_names(bw) if p_ != "self"]
+    if len(ps) != 1:
+        raise Abstain(f"the buffering writer takes {ps}")
+    bs = ps[0]
+    app = call_sites(g, lambda c: call_attr(c) == "append" and [src(a) for a in c.args] == [bs] and src(c.func.value) == (bufname or ""))
+    direct = call_sites(g, lambda c: src(c.func) == up)
+    flushes = [n for n, c in call_sites(g, lambda c: src(c.func) == r["flush_in_w"])]
+    ctx.check(len(app) >= 1, "recursion/buffer-order", qw, "output is not appended to the buffer")
     for n, c in direct:
         w = g.must_precede(flushes, [n])
-        ctx.check(w is None and [src(a) for a in c.args] == [bs], "recursion/buffer-order", ctx.construct(q + "bufferedWrite", c),
+        ctx.check(w is None and [src(a) for a in c.args] == [bs], "recursion/buffer-order", ctx.construct(qw, c),
                   "a chunk is handed to the upstream writer while earlier output is still sitting in the buffer: it overtakes the markup that should enclose it "
                   "(tags.p(big) is written as BIG<p></p>)", witness=g.describe(w))
     w = g.must_pass([g.entry], [n for n, c in app] + [n for n, c in direct], exc=False)
-    ctx.check(w is None, "recursion/buffer-order", q + "bufferedWrite | every chunk kept", "a chunk can be dropped (neither buffered nor written)", witness=g.describe(w))
+    ctx.check(w is None, "recursion/buffer-order", qw + " | every chunk kept", "a chunk can be dropped (neither buffered nor written)", witness=g.describe(w))
     for n, c in app:
         ctx.check(g.path([n], [m for m, _ in direct], strict=True) is None and g.path([m for m, _ in direct], [n], strict=True) is None, "recursion/buffer-order",
-                  ctx.construct(q + "bufferedWrite", c) + " | once", "a chunk is both buffered and written directly (duplicated output)")
-    bufname = src(app[0][1].func.value) if app else "buf"
+                  ctx.construct(qw, c) + " | once", "a chunk is both buffered and written directly (duplicated output)")
+    if bufname is None:
+        return
     g2 = ctx.cfg(fb)
-    wr = call_sites(g2, lambda c: isinstance(c.func, ast.Name) and c.func.id == up)
+    wr = call_sites(g2, lambda c: src(c.func) == up)
     if len(wr) != 1 or len(wr[0][1].args) != 1:
-        ctx.check(False, "recursion/buffer-order", q + "flushBuffer", f"the buffer is delivered by {len(wr)} upstream writes, not by exactly one")
+        ctx.check(False, "recursion/buffer-order", qf, f"the buffer is delivered by {len(wr)} upstream writes, not by exactly one")
     else:
         delivered = wr[0][1].args[0]
         for _ in range(3):          # a named temporary holding the joined buffer
@@ -563,25 +625,27 @@ def _buffer(ctx):
         joined = (isinstance(delivered, ast.Call) and call_attr(delivered) == "join" and isinstance(delivered.func.value, ast.Constant) and delivered.func.value.value == b""
                   and [src(a) for a in delivered.args] == [bufname] and not delivered.keywords)
         if joined:
-            ctx.ok("recursion/buffer-order", q + "flushBuffer")
-        elif any(isinstance(x, ast.Name) and x.id == bufname for x in ast.walk(delivered)):
-            ctx.violation("recursion/buffer-order", q + "flushBuffer", f"the buffer is delivered as `{src(delivered)}`, not joined in order (b''.join({bufname}))")
+            ctx.ok("recursion/buffer-order", qf)
+        elif bufname in src(delivered):
+            ctx.violation("recursion/buffer-order", qf, f"the buffer is delivered as `{src(delivered)}`, not joined in order (b''.join({bufname}))")
         else:
-            ctx.note(f"recursion/buffer-order: what flushBuffer delivers (`{src(delivered)}`) was not recognised; clause left to flatten/parses-back (bounded)")
+            ctx.note(f"recursion/buffer-order: what the flush delivers (`{src(delivered)}`) was not recognised; clause left to flatten/parses-back (bounded)")
     clears = g2.ids(lambda x: x.kind == "stmt" and ((isinstance(x.ast, ast.Delete) and src(x.ast.targets[0]) == f"{bufname}[:]") or
-                                                 (isinstance(x.ast, ast.Expr) and isinstance(x.ast.value, ast.Call) and call_name(x.ast.value) == f"{bufname}.clear")))
+                                                 (isinstance(x.ast, ast.Expr) and isinstance(x.ast.value, ast.Call) and src(x.ast.value.func) == f"{bufname}.clear") or
+                                                 (isinstance(x.ast, ast.Assign) and any(src(t) == bufname for t in x.ast.targets) and isinstance(x.ast.value, ast.List) and not x.ast.value.elts)))
     for n, c in wr:
         w = g2.must_pass([n], clears, exc=False)
-        ctx.check(bool(clears) and w is None, "recursion/buffer-order", ctx.construct(q + "flushBuffer", c) + " | then emptied", "delivered output stays in the buffer and is delivered again",
+        ctx.check(bool(clears) and w is None, "recursion/buffer-order", ctx.construct(qf, c) + " | then emptied", "delivered output stays in the buffer and is delivered again",
                   witness=g2.describe(w))
     g3 = ctx.cfg(ft)
-    fl = [n for n, c in call_sites(g3, lambda c: isinstance(c.func, ast.Name) and c.func.id == fb.name)]
+    fl = [n for n, c in call_sites(g3, lambda c: src(c.func) == r["flush_in_t"])]
     w = g3.must_pass([g3.entry], fl, exc=False)
     loops = g3.ids(lambda x: x.kind == "join" and isinstance(x.ast, ast.While))
     final = [n for n in fl if g3.path([n], loops, strict=True) is None]
-    ctx.check(w is None and bool(final), "recursion/buffer-order", q[:-1] + " | final flush", "flattening can finish with output still in the buffer", witness=g3.describe(w))
-    others = [c for c in walk_local(ft) if isinstance(c, ast.Call) and isinstance(c.func, ast.Name) and c.func.id == up]
-    ctx.check(not others, "recursion/buffer-order", q[:-1] + " | no direct writes", "_flattenTree writes to the upstream writer around the buffer")
+    ctx.check(w is None and bool(final), "recursion/buffer-order", qt + " | final flush", "flattening can finish with output still in the buffer", witness=g3.describe(w))
+    upt = r.get("up_in_t", up)
+    others = [c for c in walk_local(ft) if isinstance(c, ast.Call) and isinstance(c.func, ast.Name) and c.func.id == upt]
+    ctx.check(not others, "recursion/buffer-order", qt + " | no direct writes", "_flattenTree writes to the upstream writer around the buffer")
 
 
 def _escaper_reach(ctx, name):
